@@ -380,3 +380,79 @@ theorem C20.pspace_index_drops_weighting_fails :
     (Space.prod [r2, r2, r2] (.const .ps (.fin 2) (.fin 1)) .real).pindex (.slice ⟨1, 2, 1⟩) =
       some (.prod [r2, r2] (.const .ps (.fin 1) (.fin 2)) .real) := by
   rfl
+
+/-! ## composite sets -/
+
+/-- `SetUnion.__eq__` / `SetIntersection.__eq__` (mutual inclusion of the member tuples, as
+repaired by commit 02921b9) and `CartesianProduct.__eq__` (tuple equality), for members that
+are fields, `Strings`, `EmptySet`, `UniversalSet`, grids or spaces of any kind (i.e. members
+whose own `==` cannot raise): never raise, reflexive, symmetric, transitive — for any number
+of members, in any order, with duplicates.  Excluded members: interval products of mixed
+dimension (finding C20-F1) and `FiniteSet`s. -/
+theorem C20.composite_eq_equivalence_partial :
+    (∀ a b : List Leaf, (∀ x ∈ a, x.simple) → (∀ x ∈ b, x.simple) →
+      ((Obj.union a).eqO (.union b)).isSome = true ∧
+      ((Obj.inter a).eqO (.inter b)).isSome = true ∧
+      ((Obj.cartesian a).eqO (.cartesian b)).isSome = true) ∧
+    (∀ a : List Leaf, (∀ x ∈ a, x.simple) →
+      (Obj.union a).eqO (.union a) = some true ∧ (Obj.inter a).eqO (.inter a) = some true ∧
+      (Obj.cartesian a).eqO (.cartesian a) = some true) ∧
+    (∀ a b : List Leaf, (∀ x ∈ a, x.simple) → (∀ x ∈ b, x.simple) →
+      ((Obj.union a).eqO (.union b) = some true → (Obj.union b).eqO (.union a) = some true) ∧
+      ((Obj.inter a).eqO (.inter b) = some true → (Obj.inter b).eqO (.inter a) = some true) ∧
+      ((Obj.cartesian a).eqO (.cartesian b) = some true →
+        (Obj.cartesian b).eqO (.cartesian a) = some true)) ∧
+    (∀ a b c : List Leaf, (∀ x ∈ a, x.simple) → (∀ x ∈ b, x.simple) → (∀ x ∈ c, x.simple) →
+      ((Obj.union a).eqO (.union b) = some true → (Obj.union b).eqO (.union c) = some true →
+        (Obj.union a).eqO (.union c) = some true) ∧
+      ((Obj.inter a).eqO (.inter b) = some true → (Obj.inter b).eqO (.inter c) = some true →
+        (Obj.inter a).eqO (.inter c) = some true) ∧
+      ((Obj.cartesian a).eqO (.cartesian b) = some true →
+        (Obj.cartesian b).eqO (.cartesian c) = some true →
+        (Obj.cartesian a).eqO (.cartesian c) = some true)) := by
+  have hr : ∀ x y : Leaf, x.simple → y.simple → x.eqO y = some (x.eqB y) := Leaf.eqO_simple
+  have hk : ∀ x y : Leaf, x.simple → y.simple → (x.eqB y = true ↔ x.key = y.key) := Leaf.eqB_iff
+  have mi : ∀ a b : List Leaf, (∀ x ∈ a, x.simple) → (∀ x ∈ b, x.simple) →
+      (mutualInclO Leaf.eqO a b = some true ↔ ∀ z, z ∈ a.map Leaf.key ↔ z ∈ b.map Leaf.key) := by
+    intro a b ha hb
+    rw [mutualInclO_total Leaf.eqO Leaf.eqB Leaf.simple hr a b ha hb]
+    simpa using mutualInclB_iff Leaf.eqB Leaf.key Leaf.simple hk a b ha hb
+  have te := tupleEqO_iff Leaf.eqO Leaf.eqB Leaf.key Leaf.simple hr hk
+  refine ⟨?_, ?_, ?_, ?_⟩
+  · intro a b ha hb
+    simp only [Obj.eqO]
+    rw [mutualInclO_total Leaf.eqO Leaf.eqB Leaf.simple hr a b ha hb]
+    exact ⟨rfl, rfl, (te a b ha hb).1⟩
+  · intro a ha
+    simp only [Obj.eqO]
+    exact ⟨(mi a a ha ha).2 (fun _ => Iff.rfl), (mi a a ha ha).2 (fun _ => Iff.rfl),
+      ((te a a ha ha).2).2 rfl⟩
+  · intro a b ha hb
+    simp only [Obj.eqO]
+    refine ⟨fun h => (mi b a hb ha).2 (fun z => ((mi a b ha hb).1 h z).symm),
+      fun h => (mi b a hb ha).2 (fun z => ((mi a b ha hb).1 h z).symm),
+      fun h => ((te b a hb ha).2).2 (((te a b ha hb).2).1 h).symm⟩
+  · intro a b c ha hb hc
+    simp only [Obj.eqO]
+    refine ⟨fun h1 h2 => (mi a c ha hc).2
+        (fun z => ((mi a b ha hb).1 h1 z).trans ((mi b c hb hc).1 h2 z)),
+      fun h1 h2 => (mi a c ha hc).2
+        (fun z => ((mi a b ha hb).1 h1 z).trans ((mi b c hb hc).1 h2 z)),
+      fun h1 h2 => ((te a c ha hc).2).2
+        ((((te a b ha hb).2).1 h1).trans (((te b c hb hc).2).1 h2))⟩
+
+example : (Obj.union [.realNumbers, .complexNumbers]).eqO
+    (.union [.complexNumbers, .realNumbers, .complexNumbers]) = some true := by decide
+
+/-- The defect repaired by commit 02921b9, on a model of the OLD code: with `set_ in other`
+(membership of the member set AS AN ELEMENT of the other union, which is `False` for a set
+that is not an element of e.g. the real numbers) in place of `set_ in other.sets`, even
+`u == u` is `False` for every non-empty union.  `old` is the old comparison with an
+arbitrary element-membership test `isElem`; it fails reflexivity as soon as the members are
+not elements of each other. -/
+theorem C20.old_union_eq_not_reflexive (isElem : Leaf → Leaf → Bool)
+    (h : ∀ s t, isElem s t = false) (x : Leaf) (l : List Leaf) :
+    let old := fun (a b : List Leaf) =>
+      a.all (fun s => b.any (fun t => isElem s t)) && b.all (fun s => a.any (fun t => isElem s t))
+    old (x :: l) (x :: l) = false := by
+  simp [h]
